@@ -159,6 +159,13 @@ func (e *Engine) verifyFunc(fn *ssa.Function) (res *FuncResult) {
 	x.runFunc(fn, params, free, st, g, nil, "", false, setup)
 	res.Unsupported = x.errors
 	res.Obligations = x.queries(res.Func)
+	if c != nil {
+		for _, m := range c.Missing {
+			parts := strings.SplitN(m, ": ", 2)
+			name := res.Func + "/" + parts[0]
+			res.Obligations = append(res.Obligations, &Obligation{Func: res.Func, Name: name, Short: parts[0], Status: "failed", Solver: "static", Info: parts[1], Pos: x.posOf(fn.Pos())})
+		}
+	}
 	for _, ob := range res.Obligations {
 		ob.Props = res.Props
 	}
